@@ -77,7 +77,7 @@ def judge_facade(spec: Spec, pl: dict) -> tuple[list, dict]:
     w = spec.wiring[("facade", pl["method"])]
     ps = {"fields": pl["fields"], "args": dict(pl["args"])}
     if "pressure" in ps["args"]:
-        ps["args"]["pressure"] = np.asarray(ps["args"]["pressure"], dtype=float)
+        ps["args"]["pressure"] = np.asarray(ps["args"]["pressure"], dtype=np.dtype(pl.get("pressure_dtype", "float64")))
     try:
         res = drv.facade_case(w, ps)
     except Exception as ex:  # noqa: BLE001
@@ -219,7 +219,8 @@ def stage_facade(ctx: core.Ctx, spec: Spec, n_sets: int) -> None:
             ps = drv.param_set(rng)
             args = {a: (ps["args"][a].tolist() if a == "pressure" else ps["args"][a])
                     for a in (s[1] for s in w["sources"] if s[0] == "arg")}
-            pl = {"stage": "facade", "method": method, "fields": ps["fields"], "args": args}
+            pl = {"stage": "facade", "method": method, "fields": ps["fields"], "args": args,
+                  "pressure_dtype": str(ps["args"]["pressure"].dtype)}
             fails, res = judge_facade(spec, pl)
             ctx.case(f"facade/{method}/{k}")
             worst = max(worst, res.get("ulps", 0))
